@@ -24,6 +24,11 @@ class RuleGen:
 
     def rule(self, doc, cast_p=0.0, depth=2, path_args_p=0.0):
         pt = self.pg.path(doc, max_len=3, mods_p=0.0)
+        if isinstance(doc, dict) and "_mixed" not in doc and self.r.random() < 0.06:
+            # graft a sub-document with sibling mappings and lists, reached by ONE map-or-list part with its own conditions
+            sub, pt2 = self.pg.mixed_doc_and_path()
+            doc["_mixed"] = sub
+            pt = PathT([Prim("_mixed")] + pt2.parts, [])
         sel = self.selected(pt, doc)
         probe = [x for x in sel] or [1, "a"]
         if sel and self.r.random() < 0.4:
